@@ -58,7 +58,7 @@ class ASTFinder:
 			# @see EntryPath.identify
 			if index != -1:
 				children = entry.children
-				if index >= 0 and index < len(children):
+				if index >= 0 and index < len(children) and children[index].name == tag:
 					return self.__pluck(children[index], remain)
 			else:
 				children = entry.children
